@@ -128,7 +128,7 @@ def main():
     rnd.shuffle(allm)
     sample = allm[:n]
     print('%d mutants generated, %d sampled' % (len(allm), len(sample)))
-    with ThreadPoolExecutor(max_workers=14) as ex:
+    with ThreadPoolExecutor(max_workers=int(os.environ.get('MECH_JOBS', '14'))) as ex:
         res = list(ex.map(run, sample))
     det = [r for r in res if r['fired']]
     err = [r for r in res if not r['fired'] and r['errors']]
